@@ -8,6 +8,7 @@ import JV.Drv.Patch
 import JV.Drv.Number
 import JV.Drv.JsonText
 import JV.Drv.Source
+import JV.Drv.Binary
 open JV Drv
 
 def dispatch (line : String) : String :=
@@ -19,6 +20,7 @@ def dispatch (line : String) : String :=
   | "big" :: rest => bigLine rest
   | "jt" :: rest => jsonTextLine rest
   | "src" :: rest => sourceLine rest
+  | "bin" :: rest => binaryLine rest
   | [] => ""
   | _ => "bad-op"
 
